@@ -4,6 +4,9 @@
   python3 tools/refactor_probe.py rename    # rename every local variable of every simple function (x -> x_r)
   python3 tools/refactor_probe.py unparse   # only re-emit every module through ast.unparse (formatting, parentheses)
   python3 tools/refactor_probe.py swapif    # swap if/else arms of every `if a: .. else: ..` (negating the test)
+  python3 tools/refactor_probe.py ifstmt    # `x = A if C else B` -> if C: x = A / else: x = B
+  python3 tools/refactor_probe.py kwcall    # `f(a, b)` -> `f(x=a, y=b)` for calls of module-level functions of the same module
+  python3 tools/refactor_probe.py rettemp   # `return <expr>` -> `_returned = <expr>; return _returned` everywhere
 
 Applies the transformation to a scratch copy of /repo/abtem under /tmp, checks that the result compiles, runs every
 claimed check against it and prints which checks report violations (false alarms) or analysis errors.
@@ -73,6 +76,84 @@ class SwapIf(ast.NodeTransformer):
         return node
 
 
+class RetTemp(ast.NodeTransformer):
+    """`return <expr>` -> `_returned = <expr>; return _returned` (not for plain names / constants)"""
+
+    def _block(self, stmts):
+        out = []
+        for st in stmts:
+            st = self.visit(st)
+            if isinstance(st, ast.Return) and st.value is not None and not isinstance(st.value, (ast.Name, ast.Constant)):
+                tmp = ast.Name(id="_returned", ctx=ast.Store())
+                out.append(ast.copy_location(ast.Assign(targets=[tmp], value=st.value), st))
+                out.append(ast.copy_location(ast.Return(value=ast.Name(id="_returned", ctx=ast.Load())), st))
+            else:
+                out.append(st)
+        return out
+
+    def generic_visit(self, node):
+        for fld in ("body", "orelse", "finalbody"):
+            blk = getattr(node, fld, None)
+            if isinstance(blk, list) and blk and isinstance(blk[0], ast.stmt):
+                setattr(node, fld, self._block(blk))
+        for h in getattr(node, "handlers", []) or []:
+            h.body = self._block(h.body)
+        for fld, val in ast.iter_fields(node):
+            if fld in ("body", "orelse", "finalbody", "handlers"):
+                continue
+            if isinstance(val, list):
+                for i, v in enumerate(val):
+                    if isinstance(v, ast.AST):
+                        val[i] = self.visit(v)
+            elif isinstance(val, ast.AST):
+                setattr(node, fld, self.visit(val))
+        return node
+
+    def visit_Lambda(self, node):
+        return node
+
+
+class IfStmt(ast.NodeTransformer):
+    """`x = A if C else B` -> `if C: x = A` / `else: x = B` (single plain target, statement level)"""
+
+    def visit_Assign(self, node: ast.Assign):
+        if len(node.targets) == 1 and isinstance(node.targets[0], ast.Name) and isinstance(node.value, ast.IfExp):
+            t = node.targets[0]
+            mk = lambda v: ast.copy_location(ast.Assign(targets=[ast.Name(id=t.id, ctx=ast.Store())], value=v), node)
+            return ast.copy_location(ast.If(test=node.value.test, body=[mk(node.value.body)],
+                                            orelse=[mk(node.value.orelse)]), node)
+        return node
+
+
+class KwCall(ast.NodeTransformer):
+    """`f(a, b)` -> `f(x=a, y=b)` for calls of undecorated module-level functions of the same module"""
+
+    def __init__(self, tree: ast.Module):
+        self.sigs = {}
+        for st in tree.body:
+            if isinstance(st, ast.FunctionDef) and not st.decorator_list and not st.args.posonlyargs \
+                    and not st.args.vararg:
+                self.sigs[st.name] = [a.arg for a in st.args.args]
+        # a name that is rebound anywhere in the module is not safe
+        for n in ast.walk(tree):
+            if isinstance(n, ast.Name) and isinstance(n.ctx, ast.Store) and n.id in self.sigs:
+                del self.sigs[n.id]
+            if isinstance(n, ast.arg) and n.arg in self.sigs:
+                del self.sigs[n.arg]
+
+    def visit_Call(self, node: ast.Call):
+        self.generic_visit(node)
+        if isinstance(node.func, ast.Name) and node.func.id in self.sigs and node.args and not any(
+                isinstance(a, ast.Starred) for a in node.args) and not any(k.arg is None for k in node.keywords):
+            params = self.sigs[node.func.id]
+            if len(node.args) <= len(params):
+                new_kw = [ast.keyword(arg=p, value=a) for p, a in zip(params, node.args)]
+                if not {k.arg for k in new_kw} & {k.arg for k in node.keywords}:
+                    node.keywords = new_kw + node.keywords
+                    node.args = []
+        return node
+
+
 def main():
     mode = sys.argv[1] if len(sys.argv) > 1 else "rename"
     tmp = Path(tempfile.mkdtemp(prefix="rp-"))
@@ -86,6 +167,12 @@ def main():
                 tree = Rename().visit(tree)
             elif mode == "swapif":
                 tree = SwapIf().visit(tree)
+            elif mode == "rettemp":
+                tree = RetTemp().visit(tree)
+            elif mode == "ifstmt":
+                tree = IfStmt().visit(tree)
+            elif mode == "kwcall":
+                tree = KwCall(tree).visit(tree)
             ast.fix_missing_locations(tree)
             out = ast.unparse(tree)
             compile(out, str(p), "exec")
